@@ -247,7 +247,9 @@ IntSchemas == {AnyInt, IntS(10, NONE, FALSE, FALSE, NONE), IntS(NONE, 30, FALSE,
                \* a divisor that is not a power of two, against negative instances
                IntS(NONE, NONE, FALSE, FALSE, 30), IntS(0 - 30, NONE, FALSE, FALSE, 20), Nullable(Enum(<<N(10), N(30)>>, AnyInt))}
 NumSchemas == {AnyNum, Num(5, NONE, FALSE, FALSE, NONE), Num(NONE, 15, FALSE, FALSE, NONE), Num(5, 15, TRUE, TRUE, NONE), Num(NONE, NONE, FALSE, FALSE, 5),
-               Num(NONE, NONE, FALSE, FALSE, 1), Num(NONE, NONE, FALSE, FALSE, 15), Enum(<<N(5), N(10)>>, AnyNum), Nullable(Num(5, 15, FALSE, FALSE, NONE))}
+               Num(NONE, NONE, FALSE, FALSE, 1), Num(NONE, NONE, FALSE, FALSE, 15),
+               \* multipleOf 1: every integer passes, a number with a fraction does not
+               Num(NONE, NONE, FALSE, FALSE, 10), Num(0 - 20, 20, FALSE, FALSE, 10), IntS(NONE, NONE, FALSE, FALSE, 10), Enum(<<N(5), N(10)>>, AnyNum), Nullable(Num(5, 15, FALSE, FALSE, NONE))}
 ArrSchemas == {Arr(AnyStr, 0, NONE, FALSE), Arr(AnyInt, 1, NONE, FALSE), Arr(AnyStr, 0, 1, FALSE), Arr(AnyInt, 1, 2, TRUE), Arr(AnyStr, 0, NONE, TRUE),
                Arr(Str(2, NONE, ""), 0, NONE, FALSE), Arr(IntS(10, NONE, FALSE, FALSE, NONE), 0, 2, FALSE), Arr(AnyNum, 0, NONE, TRUE), Nullable(Arr(AnyStr, 0, NONE, FALSE)),
                Arr(Arr(AnyInt, 0, 1, FALSE), 0, NONE, FALSE), Arr(Nullable(AnyStr), 0, NONE, FALSE),
@@ -266,6 +268,10 @@ ObjSchemas == {Obj(<<PA, PBo>>, AT, 0, NONE), Obj(<<PA, PBo>>, AF, 0, NONE), Obj
                Obj(<<P("a", Arr(AnyStr, 1, NONE, FALSE), FALSE), PBo>>, AT, 0, NONE), Obj(<<P("a", Nullable(Arr(AnyStr, 1, 2, FALSE)), TRUE)>>, AF, 0, NONE),
                Obj(<<P("a", Nullable(Arr(AnyStr, 1, 2, FALSE)), FALSE)>>, AF, 0, NONE),
                Nullable(Obj(<<>>, AF, 0, NONE)), Obj(<<P("a", Nullable(Obj(<<>>, AT, 0, 2)), FALSE)>>, AT, 0, NONE),
+               \* two optional (and two nullable) text members with different patterns: each member keeps its own
+               Obj(<<P("a", Str(0, NONE, "^a+$"), FALSE), P("b", Str(0, NONE, "b"), FALSE)>>, AF, 0, NONE),
+               Obj(<<P("a", Nullable(Str(0, NONE, "b")), TRUE), P("b", Nullable(Str(0, NONE, "^a+$")), TRUE)>>, AF, 0, NONE),
+               OneOf(<<Str(0, NONE, "^a+$"), AnyInt>>), OneOf(<<Str(0, NONE, "b"), Bool>>),
                \* recursion: a list node
                Obj(<<P("a", AnyInt, TRUE), P("c", Self, FALSE)>>, AF, 0, NONE),
                \* recursion where the recursive member is declared before the only member that carries a
